@@ -840,6 +840,10 @@ class DateSiblings(Siblings):
           'SECOND({0})', 'EDATE({0},1)', 'EDATE({0},-1)', 'DAYS({0},1)', 'DATEDIF(1,{0},"d")', 'DATEDIF(1,{0},"m")',
           'DATEDIF(1,{0},"y")', 'DATEDIF(1,{0},"ym")'],
          [(61,), (367,), (40000,), (45000.5,), ('2020-02-29',), ('2021-03-31T13:14:15',), (2,), (12,), (31,)]),
+        (['TEXT(DATE({0},{1},{2}),"dd/mm/yyyy")', 'TEXT(DATE({0},{1},{2}),"yyyy-mm-dd")', 'TEXT(DATE({0},{1},{2}),"d mmm yy")',
+          'TEXT(DATE({0},{1},{2}),"mmmm d, yyyy")', 'TEXT(TIME({2},{1},{1}),"hh:mm:ss")', 'TEXT(DATE({0},{1},{2}),"ddd")',
+          'YEAR(DATE({0},{1},{2}))&"-"&MONTH(DATE({0},{1},{2}))&"-"&DAY(DATE({0},{1},{2}))'],
+         [(2020, 3, 5), (2021, 7, 9), (1999, 12, 31), (2004, 4, 3), (2024, 2, 29)]),
         (['DATE({0},{1},{2})', 'TIME({0},{1},{2})', 'YEAR(DATE({0},{1},{2}))', 'MONTH(DATE({0},{1},{2}))',
           'DAY(DATE({0},{1},{2}))', 'HOUR(TIME({0},{1},{2}))', 'MINUTE(TIME({0},{1},{2}))', 'SECOND(TIME({0},{1},{2}))',
           'WEEKDAY(DATE({0},{1},{2}))', 'EDATE(DATE({0},{1},{2}),1)', 'DAYS(DATE({0},{1},{2}),DATE({0},1,1))',
